@@ -43,10 +43,15 @@ type worldFile struct {
 	// Late: another chain whose suffrage heights 1.. sit in blocks far above
 	// every block of the main chain (suffrage height 0 at genesis)
 	Late [][]byte
+	// OtherNet: the proofs of the main chain with their block maps signed (by
+	// the same node key) for another network id: valid there, invalid here
+	OtherNet [][]byte
 }
 
 type world struct {
-	late []base.SuffrageProof
+	rig       *blkrig.Rig
+	late      []base.SuffrageProof
+	othernet  []base.SuffrageProof
 	networkID base.NetworkID
 	main      []base.SuffrageProof
 	foreign   []base.SuffrageProof
@@ -56,6 +61,7 @@ type world struct {
 func buildWorld(r *vlib.Run, n int) (worldFile, error) {
 	rig := blkrig.New()
 	wf := worldFile{NetworkID: rig.NetworkID}
+	othernetID := base.NetworkID(append([]byte("other-"), rig.NetworkID...))
 
 	chain := func(name string, n int, first bool, seed int) ([][]byte, error) {
 		rng := r.Rand(18, 9000, seed)
@@ -78,6 +84,26 @@ func buildWorld(r *vlib.Run, n int) (worldFile, error) {
 			}
 
 			out[i] = b
+
+			if name != "main" {
+				continue
+			}
+
+			m, ok := c.Proofs[i].Map().(isaacblock.BlockMap)
+			if !ok {
+				return nil, errors.Errorf("expected isaacblock.BlockMap, %T", c.Proofs[i].Map())
+			}
+
+			if err := m.Sign(rig.Local.Address(), rig.Local.Privatekey(), othernetID); err != nil {
+				return nil, err
+			}
+
+			ob, err := rig.Enc.Marshal(isaacblock.NewSuffrageProof(m, c.Proofs[i].State(), c.Proofs[i].Proof()))
+			if err != nil {
+				return nil, err
+			}
+
+			wf.OtherNet = append(wf.OtherNet, ob)
 		}
 
 		return out, nil
@@ -135,7 +161,7 @@ func buildWorld(r *vlib.Run, n int) (worldFile, error) {
 
 func loadWorld(wf worldFile) (*world, error) {
 	rig := blkrig.New()
-	w := &world{networkID: base.NetworkID(wf.NetworkID)}
+	w := &world{rig: rig, networkID: base.NetworkID(wf.NetworkID)}
 
 	dec := func(b []byte) (base.SuffrageProof, error) {
 		h, err := rig.Enc.Decode(b)
@@ -193,6 +219,30 @@ func loadWorld(wf worldFile) (*world, error) {
 
 	w.ngz = p
 
+	othernetID := base.NetworkID(append([]byte("other-"), wf.NetworkID...))
+
+	for i := range wf.OtherNet {
+		h, err := rig.Enc.Decode(wf.OtherNet[i])
+		if err != nil {
+			return nil, err
+		}
+
+		p, ok := h.(isaacblock.SuffrageProof)
+		if !ok {
+			return nil, errors.Errorf("not SuffrageProof, %T", h)
+		}
+
+		if err := p.IsValid(othernetID); err != nil {
+			return nil, errors.WithMessage(err, "other-network proof")
+		}
+
+		if err := p.IsValid(w.networkID); err == nil {
+			return nil, errors.Errorf("other-network proof is valid under the network id")
+		}
+
+		w.othernet = append(w.othernet, p)
+	}
+
 	return w, nil
 }
 
@@ -217,6 +267,14 @@ type bcase struct {
 	Order  string
 	GapMs  int
 	SlowMs int
+	// kind "malformed" (malformed_test.go): Site = the remote call that gets
+	// the malformed answer (last / height / candidate), Shape = what is wrong
+	// with it, Flag = found / not-found / with-error, HVar = which last block
+	// height the remote reports (0 = the real one)
+	Site  string `json:",omitempty"`
+	Shape string `json:",omitempty"`
+	Flag  string `json:",omitempty"`
+	HVar  int    `json:",omitempty"`
 }
 
 // slowProof is a remote proof whose Prove takes longer (a big suffrage, a busy
@@ -245,6 +303,13 @@ type cresult struct {
 	Sig      string // violation signature ("" = none)
 	What     string
 	Panicked bool
+	// malformed cases
+	Reach   string `json:",omitempty"` // decodable / interface-only
+	Invalid bool   `json:",omitempty"` // the served answer is nil or fails IsValid
+	Skipped string `json:",omitempty"` // the shape could not be put together
+	Gated   bool   `json:",omitempty"` // by-height answer stopped by the caller's IsValid gate
+	Ignored bool   `json:",omitempty"` // nil error and no proofs
+	Us      int64  `json:",omitempty"` // wall time of the case in the child (evidence only)
 }
 
 var kinds = []string{
@@ -457,8 +522,38 @@ func directed(n int) []bcase {
 
 // ---------------------------------------------------------------- child
 
-func runCase(w *world, c bcase) (res cresult) {
+func runCase(w *world, c bcase, note func(string)) (res cresult) {
 	res.ID = c.ID
+
+	malformed := c.Kind == "malformed"
+
+	var ans answer
+
+	if malformed {
+		idx := c.Last
+		if c.Site == "height" {
+			idx = c.Targets[0]
+		}
+
+		var ok bool
+
+		if c.Site == "candidate" {
+			ans, ok = mkCandidate(w.rig, w, c.Shape, idx)
+		} else {
+			ans, ok = mkAnswer(w.rig, w, c.Shape, idx)
+		}
+
+		if !ok {
+			res.Skipped = "shape could not be constructed"
+
+			return res
+		}
+
+		res.Reach, res.Invalid = ans.reach, ans.invalid
+		note(ans.reach)
+	}
+
+	var gated atomic.Bool
 
 	var local base.State
 	localh := int64(-1)
@@ -572,6 +667,21 @@ func runCase(w *world, c bcase) (res cresult) {
 				return h, nil, false, nil
 			}
 
+			if malformed {
+				h = hvar(c, h)
+			}
+
+			if malformed && c.Site == "last" {
+				switch c.Flag {
+				case "not-found":
+					return h, ans.p, false, nil
+				case "with-error":
+					return h, ans.p, c.Seed%2 == 0, errors.Errorf("remote failed")
+				default:
+					return h, ans.p, true, nil
+				}
+			}
+
 			return h, lastproof, true, nil
 		},
 		func(_ context.Context, h base.Height) (base.SuffrageProof, bool, error) {
@@ -589,6 +699,26 @@ func runCase(w *world, c bcase) (res cresult) {
 
 			if i < 0 || i >= len(w.main) {
 				return nil, false, nil
+			}
+
+			if malformed && c.Site == "height" && target[i] {
+				switch c.Flag {
+				case "not-found":
+					return ans.p, false, nil
+				case "with-error":
+					return ans.p, c.Seed%2 == 0, errors.Errorf("remote failed")
+				}
+
+				// found: the builder documents that what getSuffrageProof
+				// hands over already passed IsValid, and its caller (launch)
+				// checks exactly that before handing a proof over
+				if err := safeIsValid(ans.p, w.networkID); err != nil {
+					gated.Store(true)
+
+					return nil, false, err
+				}
+
+				return ans.p, true, nil
 			}
 
 			switch {
@@ -619,7 +749,20 @@ func runCase(w *world, c bcase) (res cresult) {
 				return w.main[i], true, nil
 			}
 		},
-		func(context.Context) (base.State, bool, error) { return nil, false, nil },
+		func(context.Context) (base.State, bool, error) {
+			if malformed && c.Site == "candidate" {
+				switch c.Flag {
+				case "not-found":
+					return ans.st, false, nil
+				case "with-error":
+					return ans.st, c.Seed%2 == 0, errors.Errorf("remote failed")
+				default:
+					return ans.st, true, nil
+				}
+			}
+
+			return nil, false, nil
+		},
 	)
 	b.SetBatchLimit(c.Limit)
 
@@ -632,6 +775,12 @@ func runCase(w *world, c bcase) (res cresult) {
 				res.Panicked = true
 				res.Sig = "Build:panic:" + vlib.PanicSite(string(debug.Stack()))
 				res.What = fmt.Sprintf("panic in Build: %v", e)
+
+				if malformed {
+					res.Sig = fmt.Sprintf("Build:panic:%s:local=%s:%s", behaviourClass(c), localNoneOrState(c), ans.reach)
+					res.What = fmt.Sprintf("panic in Build at %s: %v (local suffrage height %d, remote last %d, batch limit %d; the remote's %s answer is %s, flagged %s; %s)",
+						vlib.PanicSite(string(debug.Stack())), e, c.Local, c.Last, c.Limit, c.Site, c.Shape, c.Flag, ans.reach)
+				}
 			}
 		}()
 
@@ -639,6 +788,7 @@ func runCase(w *world, c bcase) (res cresult) {
 	}()
 
 	res.Fetched = len(fetched)
+	res.Gated = gated.Load()
 	slowon.Store(false)
 
 	if res.Panicked {
@@ -667,6 +817,14 @@ func runCase(w *world, c bcase) (res cresult) {
 
 	viol := func(clause, what string) {
 		if res.Sig == "" {
+			if malformed {
+				res.Sig = fmt.Sprintf("Build:%s:%s:local=%s:%s", clause, behaviourClass(c), localNoneOrState(c), ans.reach)
+				res.What = fmt.Sprintf("Build(local suffrage height %d; remote last %d; batch limit %d; the remote's %s answer %v is %s, flagged %s, %s) returned nil error and %d proofs: %s",
+					localh, c.Last, c.Limit, c.Site, c.Targets, c.Shape, c.Flag, ans.reach, len(proofs), what)
+
+				return
+			}
+
 			res.Sig = fmt.Sprintf("Build:%s:%s:%s", clause, c.Kind, batches)
 			res.What = fmt.Sprintf("Build(local suffrage height %d; remote last %d; batch limit %d; remote behaviour %s %v->%d; foreign chain from height %d; answers %s gap %dms, Prove +%dms) returned nil error and %d proofs: %s",
 				localh, c.Last, c.Limit, c.Kind, c.Targets, c.Answer, c.Splice, c.Order, c.GapMs, c.SlowMs, len(proofs), what)
@@ -681,7 +839,23 @@ func runCase(w *world, c bcase) (res cresult) {
 			continue
 		}
 
-		res.Heights = append(res.Heights, proofs[i].SuffrageHeight().Int64())
+		res.Heights = append(res.Heights, safeSuffrageHeight(proofs[i]))
+	}
+
+	if malformed {
+		// never accept: whatever the remote answered, a proof that does not
+		// pass IsValid must not be among the returned ones
+		for i := range proofs {
+			if proofs[i] == nil {
+				continue
+			}
+
+			if err := safeIsValid(proofs[i], w.networkID); err != nil {
+				viol("accepted-invalid-proof", fmt.Sprintf("entry %d of the returned proofs (heights %v) does not pass IsValid: %v", i, res.Heights, err))
+
+				break
+			}
+		}
 	}
 
 	if res.Sig != "" {
@@ -689,7 +863,14 @@ func runCase(w *world, c bcase) (res cresult) {
 	}
 
 	if len(proofs) < 1 {
-		if c.Kind != "not-updated" && lastproof.SuffrageHeight().Int64() > localh {
+		res.Ignored = malformed
+
+		// an answer that is not flagged found, and a last proof that is not a
+		// valid proof at all, may be ignored ("nothing new") instead of
+		// being reported
+		ignorable := c.Kind == "not-updated" || (malformed && c.Site == "last" && (c.Flag != "found" || ans.invalid))
+
+		if !ignorable && lastproof.SuffrageHeight().Int64() > localh {
 			viol("no-proofs-though-remote-ahead", "the remote's last proof is above the local state")
 		}
 
@@ -754,6 +935,16 @@ func runCase(w *world, c bcase) (res cresult) {
 	}
 
 	return res
+}
+
+func safeSuffrageHeight(p base.SuffrageProof) (h int64) {
+	defer func() {
+		if e := recover(); e != nil {
+			h = -98
+		}
+	}()
+
+	return p.SuffrageHeight().Int64()
 }
 
 // ownTreePath returns the proof material of key in a states tree of n nodes
@@ -828,7 +1019,10 @@ func child(dir string, start int) error {
 		}
 
 		base0 := runtime.NumGoroutine()
-		res := runCase(w, cases[i])
+		t0 := time.Now()
+		res := runCase(w, cases[i], func(reach string) {
+			_ = os.WriteFile(filepath.Join(dir, "cur"), []byte(strconv.Itoa(i)+" "+reach), 0o644)
+		})
 
 		// workers of a Build that returned early (first job error) may still
 		// be running: let them finish (or crash) before the next case is
@@ -836,6 +1030,8 @@ func child(dir string, start int) error {
 		for k := 0; k < 400 && runtime.NumGoroutine() > base0; k++ {
 			time.Sleep(5 * time.Millisecond)
 		}
+
+		res.Us = time.Since(t0).Microseconds()
 
 		line, _ := json.Marshal(res)
 		if _, err := out.Write(append(line, '\n')); err != nil {
@@ -861,8 +1057,11 @@ func TestC18(t *testing.T) {
 
 	r := vlib.Start(t, "C18", vlib.LevelExploration)
 	defer r.Finish()
-	r.SetRule("case = (local suffrage height or none, remote's last suffrage height, batch limit, remote behaviour) given to the real isaac.SuffrageStateBuilder.Build with SetBatchLimit; the remote serves real suffrage proofs (blocks written by Writer+LocalFSWriter, proofs encoded and decoded, all passing IsValid): honest, delayed/shuffled, a duplicate of another height, a missing height, a height below the local state, a height above the last, proofs of a foreign chain (one / all / only the last), last proof older than local, fetch error, not updated, a last proof that is valid and of a newer block than the local state but whose suffrage height is at or below the local one (another chain; Answer = its suffrage height), forged proofs (a forged suffrage state under the real block map with the real state's path, which does not contain it; or with a wrong previous hash and an own consistent tree) at height 0 and at other heights, followed by a forged chain linked to them, with and without a local state, two chains spliced at a random height inside a batch with scheduled answers (reverse / forward / random / simultaneous arrival, 1-2 ms apart) and proofs whose Prove takes 0/6/10 ms longer, the same schedules on the honest chain, a suffrage-height-0 proof carried by a non-genesis block; cases run in child processes (case id logged before it starts) so that a panic in a job-worker goroutine is attributed to its case; distinct = (kind, local, last, limit, targets, answer); non-trivial = every case (each calls Build)")
-	r.Assume("remote answers always pass SuffrageProof.IsValid(networkID), as the real fetch functions in launch guarantee; a nil proof with found=true is not generated")
+	r.SetRule("case = (local suffrage height or none, remote's last suffrage height, batch limit, remote behaviour) given to the real isaac.SuffrageStateBuilder.Build with SetBatchLimit; the remote serves real suffrage proofs (blocks written by Writer+LocalFSWriter, proofs encoded and decoded, all passing IsValid): honest, delayed/shuffled, a duplicate of another height, a missing height, a height below the local state, a height above the last, proofs of a foreign chain (one / all / only the last), last proof older than local, fetch error, not updated, a last proof that is valid and of a newer block than the local state but whose suffrage height is at or below the local one (another chain; Answer = its suffrage height), forged proofs (a forged suffrage state under the real block map with the real state's path, which does not contain it; or with a wrong previous hash and an own consistent tree) at height 0 and at other heights, followed by a forged chain linked to them, with and without a local state, two chains spliced at a random height inside a batch with scheduled answers (reverse / forward / random / simultaneous arrival, 1-2 ms apart) and proofs whose Prove takes 0/6/10 ms longer, the same schedules on the honest chain, a suffrage-height-0 proof carried by a non-genesis block; cases run in child processes (case id logged before it starts) so that a panic in a job-worker goroutine is attributed to its case; distinct = (kind, local, last, limit, targets, answer); non-trivial = every case (each calls Build). MALFORMED ANSWERS (kind malformed): one answer of the remote is not a well-formed proof, everything else is the honest chain; case = (site: the last-proof call / the by-suffrage-height call for one requested height / the candidate-state call) x (shape: nil proof, typed-nil proof pointer, proof without state / without map / without tree path / with nothing but its hint, typed-nil state or map inside a proof, state with nil value / a value of another type / no nodes / no hash / a wrong hash / another height than the manifest / another key / taken from another proof, map without manifest / with another map's signature / unsigned, a proof signed for another network id, and the valid proof itself) x (flag: found / not-found / with-error) x (local starting point: none, below the remote's last, at it, above it) x (reported last block height: real, NilHeight, negative, MaxInt64); each shape is first made as a network answer (the encoded valid proof is edited and decoded by the repository's decoder: 'decodable') and otherwise with the repository's constructors ('interface-only'); a directed sweep gives every shape from every kind of starting point to every call, random cases add other heights, limits and flags; fingerprint = (site, shape, flag, reported height, local class, local, last, limit, target)")
+	r.Assume("outside kind malformed, remote answers always pass SuffrageProof.IsValid(networkID)")
+	r.Assume("kind malformed: the answer of the last-proof call and of the candidate-state call reaches Build as it is; an answer of the by-height call flagged found that does not pass IsValid is turned into a fetch error before Build sees it, because SuffrageStateBuilder documents that getSuffrageProof hands over proofs that passed IsValid and its caller (launch) checks that; by-height answers flagged not-found or with-error reach Build with the malformed proof attached")
+	r.Assume("kind malformed: a nil proof, a typed-nil proof pointer and a proof holding a typed-nil state or map reach the last-proof call only flagged not-found or with-error (where Build has to leave the attached value alone): flagged found they are Go values that no decoded network answer can be (the decoders produce values, the network client reports a nil last proof as not updated)")
+	r.Assume("kind malformed is judged like every other kind (a panic is a violation; with a nil error the returned proofs must be the gap-free linked chain) and, in addition, no returned proof may fail IsValid; a nil error with no proofs is accepted when the answer was not flagged found or the last proof is not a valid proof at all (ignoring it is as good as reporting it)")
 	r.Assume("judged only when Build returns a nil error: no nil entry; after dropping a repeated last element the suffrage heights are local+1, local+2, ... last; every proof passes IsValid and Proves against its predecessor's state (the first against the local state); the last is the remote's last proof; no proofs at all is accepted only if the remote's last proof is not above the local state")
 
 	r.Assume("forged kinds break exactly one binding of ONE proof (its state is not in the path it carries, or its previous hash is wrong); the forged proofs served for the heights after it carry their own consistent trees and correct links, so they Prove (that Prove does not compare the path's root with the manifest is C13's known finding and is not judged here)")
@@ -888,6 +1087,16 @@ func TestC18(t *testing.T) {
 		cases = append(cases, genCase(i, r.Rand(18, i), n))
 	}
 
+	// malformed answers: the directed sweep (every shape x every kind of local
+	// starting point x every flag x every remote call), then random ones
+	cases = append(cases, directedMalformed(n)...)
+
+	for i, mtotal := 0, r.N(200, 4000); i < mtotal; i++ {
+		cases = append(cases, genMalformed(len(cases), r.Rand(18, 5000000, i), n))
+	}
+
+	shapeReach := map[string]string{}
+
 	for i := range cases {
 		cases[i].ID = i
 		if cases[i].Seed == 0 {
@@ -908,6 +1117,7 @@ func TestC18(t *testing.T) {
 
 	results := map[int]cresult{}
 	crashed := map[int]string{} // case -> stderr of the child
+	crashedReach := map[int]string{}
 	start := 0
 	children := 0
 
@@ -945,7 +1155,12 @@ func TestC18(t *testing.T) {
 			break
 		}
 
-		i, aerr := strconv.Atoi(string(cur))
+		curf := strings.Fields(string(cur))
+		if len(curf) < 1 {
+			curf = []string{""}
+		}
+
+		i, aerr := strconv.Atoi(curf[0])
 		if aerr != nil {
 			r.Inconclusive(fmt.Sprintf("child failed before the first case (%v): %s", runerr, tail(stderr.String(), 600)))
 
@@ -959,6 +1174,10 @@ func TestC18(t *testing.T) {
 		}
 
 		crashed[i] = stderr.String()
+		if len(curf) > 1 {
+			crashedReach[i] = curf[1]
+		}
+
 		start = i + 1
 	}
 
@@ -980,6 +1199,10 @@ func TestC18(t *testing.T) {
 
 	for i, c := range cases {
 		fp := fmt.Sprintf("%s/%d/%d/%d/%v/%d/%d/%s/%d/%d", c.Kind, c.Local, c.Last, c.Limit, c.Targets, c.Answer, c.Splice, c.Order, c.GapMs, c.SlowMs)
+		if c.Kind == "malformed" {
+			fp = malformedFingerprint(c)
+		}
+
 		batches := "single-batch"
 
 		if int64(c.Last-c.Local) > c.Limit {
@@ -1006,6 +1229,21 @@ func TestC18(t *testing.T) {
 				stack = stack[j:]
 			}
 
+			if c.Kind == "malformed" {
+				reach := crashedReach[i]
+				if reach == "" {
+					reach = "unknown"
+				}
+
+				r.Count("malformed_cases", 1)
+				r.Violation(fmt.Sprintf("Build:panic:%s:local=%s:%s", behaviourClass(c), localNoneOrState(c), reach),
+					fmt.Sprintf("process-fatal %s at %s in a goroutine spawned by Build (local suffrage height %d, remote last %d, batch limit %d; the remote's %s answer %v is %s, flagged %s; %s)",
+						msg, vlib.PanicSite(stack), c.Local, c.Last, c.Limit, c.Site, c.Targets, c.Shape, c.Flag, reach),
+					map[string]any{"case": c, "stderr": head(stack, 3000)})
+
+				continue
+			}
+
 			r.Violation(fmt.Sprintf("Build:panic:%s:%s", vlib.PanicSite(stack), c.Kind),
 				fmt.Sprintf("process-fatal %s in a goroutine spawned by Build (local %d, remote last %d, limit %d, behaviour %s %v->%d, %s)",
 					msg, c.Local, c.Last, c.Limit, c.Kind, c.Targets, c.Answer, batches),
@@ -1019,9 +1257,58 @@ func TestC18(t *testing.T) {
 			continue
 		}
 
+		if res.Skipped != "" {
+			// no such answer can be put together, neither through the decoder
+			// nor with the constructors: nothing was given to Build
+			r.Count("malformed_shape_unconstructible", 1)
+			shapeReach[c.Shape] = "unconstructible"
+
+			continue
+		}
+
+		if c.Kind == "malformed" {
+			r.Count("malformed_cases", 1)
+			r.Count("malformed_site_"+c.Site, 1)
+			r.Count("malformed_flag_"+c.Flag, 1)
+			r.Count("malformed_local_"+localClass(c), 1)
+			r.Count("malformed_reach_"+res.Reach, 1)
+			r.SetAdd("malformed_shapes_given", c.Site+":"+c.Shape+":"+res.Reach)
+
+			shapeReach[c.Shape] = res.Reach
+
+			if c.HVar != 0 {
+				r.Count("malformed_odd_last_block_height", 1)
+			}
+
+			switch {
+			case res.Gated:
+				r.Count("malformed_height_answer_stopped_by_callers_isvalid_gate", 1)
+			case c.Site != "candidate" && c.Flag == "found" && res.Invalid:
+				r.Count("malformed_invalid_answer_reached_build", 1)
+			}
+
+			if res.Ignored {
+				r.Count("malformed_nil_error_and_no_proofs", 1)
+			}
+
+			if c.Site != "candidate" && c.Shape != "valid" && !res.Invalid {
+				r.Inconclusive(fmt.Sprintf("self-check: the %s answer of shape %s (%s) passes IsValid", c.Site, c.Shape, res.Reach))
+			}
+
+			if r.Counter("malformed_cases")%97 == 5 {
+				r.Sample(map[string]any{"case": c, "result": res})
+			}
+		}
+
 		r.Case(fp)
 		r.Count("kind_"+c.Kind, 1)
 		r.Count("proofs_fetched", res.Fetched)
+
+		if c.Kind == "malformed" {
+			r.Count("child_ms_malformed_cases", int(res.Us/1000))
+		} else {
+			r.Count("child_ms_other_cases", int(res.Us/1000))
+		}
 
 		switch {
 		case res.Err != "":
@@ -1032,7 +1319,7 @@ func TestC18(t *testing.T) {
 			r.Count("returned_nothing", 1)
 		}
 
-		if i < 3 || (i >= 4 && i < 7) {
+		if i < 3 {
 			r.Sample(map[string]any{"case": c, "result": res})
 		}
 
@@ -1043,6 +1330,12 @@ func TestC18(t *testing.T) {
 
 	if len(results)+len(crashed) < len(cases) {
 		r.Inconclusive(fmt.Sprintf("only %d of %d cases were run", len(results)+len(crashed), len(cases)))
+	}
+
+	r.Set("malformed_shape_reach", shapeReach)
+
+	if r.Counter("malformed_invalid_answer_reached_build") < 1 {
+		r.Inconclusive("no malformed answer reached Build")
 	}
 
 	if r.Counter("returned_proofs") < 1 {
